@@ -32,22 +32,27 @@ func (ex *Exec) vtCall(g *G, fn *ssa.Function, args []Value, done func(Value)) {
 		done(ex.input(str(0), "bool", smt.Bool))
 	case "Str":
 		done(ex.input(str(0), "string", smt.Str))
+	case "StrOrd":
+		done(ex.input(str(0), "strord", smt.BV(OrdW)))
 	case "Float64":
 		done(ex.input(str(0), "float64", smt.F64))
 	case "Float32":
 		done(ex.input(str(0), "float32", smt.F32))
 	case "IntFloat32":
-		// an integer-valued float32 of magnitude <= 2^16, carried as BV64 input
-		i := ex.input(str(0), "int64", smt.BV(64))
-		ex.assume(B.And(B.Sle(ex.intC(-65536), i), B.Sle(i, ex.intC(65536))))
-		done(B.FFromSBV(i, 32))
+		// an integer-valued float32 of magnitude <= 2^16: a float variable constrained to be integral
+		f := ex.input(str(0), "float32", smt.F32)
+		lim := B.F32C(65536)
+		ex.assume(B.And(B.FCmp(smt.OFEq, B.FUn(smt.OFRound, f), f), B.FCmp(smt.OFLe, B.FUn(smt.OFNeg, lim), f), B.FCmp(smt.OFLe, f, lim)))
+		done(f)
 	case "Choose":
 		n, ok := concInt(args[1])
 		if !ok || n <= 0 {
 			ex.unsupported("vt.Choose with non-constant n")
 		}
 		in := ex.input(str(0), "choose", smt.BV(64))
+		ex.freshChoice = true
 		pick := ex.choose("vt.Choose", n, func(i int) *smt.Term { return B.Eq(in, ex.intC(i)) })
+		ex.freshChoice = false
 		done(ex.intC(pick))
 	case "Time":
 		ns := ex.input(str(0), "int64", smt.BV(64))
@@ -217,6 +222,9 @@ func (ex *Exec) vtCall(g *G, fn *ssa.Function, args []Value, done func(Value)) {
 }
 
 func obsKind(iv IfaceV) string {
+	if t, ok := iv.V.(*smt.Term); ok && isOrd(t) {
+		return "strord"
+	}
 	if iv.T != nil && isSigned(iv.T) {
 		return "signed"
 	}
